@@ -718,15 +718,11 @@ func ruleEpochZeroAppData(c *Ctx, r *Report) {
 							}
 						}
 					}
-					// and the failure is an alert+error
-					adv := false
-					for _, ro := range w.Returns {
-						res := retResults(ro.Ret)
-						if isNilConst(res[len(res)-1]) {
-							adv = true
-						}
-					}
-					r.Check(!adv && len(w.Returns) > 0, rule, key+":refused", c.pos(fn.Pos()), "epoch-0 application data yields an error outcome", "epoch-0 application data is silently accepted (nil error)")
+					// and the function is left without either: the record is refused or dropped.
+					// (Until repair a50b364 this obligation demanded an error outcome; the
+					// property demands that the record has no effect, and an error - with the
+					// alert it caused - was itself an effect anybody could provoke.)
+					r.Check(len(w.Returns) > 0 && !w.overflow, rule, key+":refused", c.pos(fn.Pos()), "epoch-0 application data leaves the consumer without delivery and without a replay commit (dropped or refused)", "with header epoch 0 the application-data consumer has no exit (the exploration is vacuous)")
 				}
 			}
 		}
